@@ -122,14 +122,14 @@ theorem view_link_adr (b0 b1 b2 b3 : Nat) (h0 : b0 < 256) (h3 : b3 < 256) :
   have e2 := into_dr_lo b0
   have e3 : Rt.andI ((b3 : Int) / 16) 7 = (b3 : Int) / 16 % 8 := and7 _ (by omega)
   have e4 : Rt.andI (b0 : Int) 15 = (b0 : Int) % 16 := and15 _ (by omega)
-  simp [e3, e4, view, decCmd, ints, Gen.MacCmdFn.LinkADRReqPayload.data_rate, Gen.MacCmdFn.LinkADRReqPayload.tx_power,
+  simp [Rt.ck, Rt.ITy.lo, Rt.ITy.hi, Rt.ITy.signed, Rt.ITy.bits, e3, e4, view, decCmd, ints, Gen.MacCmdFn.LinkADRReqPayload.data_rate, Gen.MacCmdFn.LinkADRReqPayload.tx_power,
     Gen.MacCmdFn.LinkADRReqPayload.channel_mask, Gen.MacCmdFn.LinkADRReqPayload.redundancy, Gen.MacCmdFn.Redundancy.new,
     Gen.MacCmdFn.Redundancy.channel_mask_control, Rt.idx, Rt.slice, shr4, e1, e2, mask2]
 
 theorem view_rx_param (d f0 f1 f2 : Nat) (h0 : f0 < 256) (h1 : f1 < 256) (h2 : f2 < 256) :
     view (.RXParamSetupReq ⟨ints [d, f0, f1, f2]⟩) = some (decCmd (0x05, [d, f0, f1, f2])) := by
   have hf := freq_value f0 f1 f2 h0 h1 h2
-  simp [view, decCmd, ints, Gen.MacCmdFn.RXParamSetupReqPayload.dl_settings, Gen.MacCmdFn.RXParamSetupReqPayload.frequency,
+  simp [Rt.ck, Rt.ITy.lo, Rt.ITy.hi, Rt.ITy.signed, Rt.ITy.bits, view, decCmd, ints, Gen.MacCmdFn.RXParamSetupReqPayload.dl_settings, Gen.MacCmdFn.RXParamSetupReqPayload.frequency,
     Gen.MacCmdFn.DLSettings.new, Gen.MacCmdFn.Frequency.new_from_raw, Rt.idx, Rt.sliceFrom, Rt.slice, hf]
 
 theorem view_new_channel (i f0 f1 f2 r : Nat) (h0 : f0 < 256) (h1 : f1 < 256) (h2 : f2 < 256) (hr : r < 256) :
@@ -137,7 +137,7 @@ theorem view_new_channel (i f0 f1 f2 r : Nat) (h0 : f0 < 256) (h1 : f1 < 256) (h
   have hf := freq_value f0 f1 f2 h0 h1 h2
   have hd := drr_new r hr
   by_cases hlt : r / 16 < r % 16 <;>
-  simp [view, decCmd, ints, Gen.MacCmdFn.NewChannelReqPayload.channel_index, Gen.MacCmdFn.NewChannelReqPayload.frequency,
+  simp [Rt.ck, Rt.ITy.lo, Rt.ITy.hi, Rt.ITy.signed, Rt.ITy.bits, view, decCmd, ints, Gen.MacCmdFn.NewChannelReqPayload.channel_index, Gen.MacCmdFn.NewChannelReqPayload.frequency,
     Gen.MacCmdFn.NewChannelReqPayload.data_rate_range, Gen.MacCmdFn.Frequency.new_from_raw, Rt.idx, Rt.slice, hf, hd, hlt]
 
 theorem view_rx_timing (d : Nat) :
@@ -148,7 +148,7 @@ theorem view_rx_timing (d : Nat) :
 theorem view_dl_channel (i f0 f1 f2 : Nat) (h0 : f0 < 256) (h1 : f1 < 256) (h2 : f2 < 256) :
     view (.DlChannelReq ⟨ints [i, f0, f1, f2]⟩) = some (decCmd (0x0A, [i, f0, f1, f2])) := by
   have hf := freq_value f0 f1 f2 h0 h1 h2
-  simp [view, decCmd, ints, Gen.MacCmdFn.DlChannelReqPayload.channel_index, Gen.MacCmdFn.DlChannelReqPayload.frequency,
+  simp [Rt.ck, Rt.ITy.lo, Rt.ITy.hi, Rt.ITy.signed, Rt.ITy.bits, view, decCmd, ints, Gen.MacCmdFn.DlChannelReqPayload.channel_index, Gen.MacCmdFn.DlChannelReqPayload.frequency,
     Gen.MacCmdFn.Frequency.new_from_raw, Rt.idx, Rt.slice, hf]
 
 /-- a command the regenerated `parse_one` yields for a well-formed (CID, payload) pair, read through the regenerated
